@@ -343,6 +343,18 @@ Definition dir_retire (n id : str) : bool :=
   if is_empty u then true else ends_with (s_ncdir ++ n) (u ++ s_dotjson).
 Definition dir_kind : skind := mkkind dir_fname dir_ncname dir_item dir_retire.
 
+(** DataStoreDirectory(suffix="json") after the repairs of __contains__ (the
+    suffix is a trailing dotted component, not any occurrence of the text) and
+    of drop_not_completed (`Path(m.unique_id).name != unique_id`: exact file
+    name instead of `endswith`).  The Path.stem normalisation of _write is
+    unchanged.  Selected by the driver's behavioural probe. *)
+Definition dir_item_fixed (x : str) : str :=
+  if ends_with x s_dotlog || ends_with x s_dotjson then x else x ++ s_dotjson.
+Definition dir_retire_exact (n id : str) : bool :=
+  let u := remove_all s_dotjson id in
+  if is_empty u then true else str_eqb n (u ++ s_dotjson).
+Definition dir_kind_fixed : skind := mkkind dir_fname dir_ncname dir_item_fixed dir_retire_exact.
+
 Record store := mkstore {
   st_done : list (str * (str * value));  (* completed: file name -> (identifier handed to write, data) *)
   st_nc : list (str * value);            (* live not_completed member list: name, data *)
